@@ -1254,7 +1254,7 @@ def do_load(w, op, p):
     from .engine_l import Dep
 
     rec = w.files[op["fid"]]
-    if not rec["quantized"]:
+    if not rec["quantized"] or rec.get("unusable"):
         return "skipped"
     target = op.get("target", "same")
     restart = bool(op.get("restart"))
@@ -1289,6 +1289,9 @@ def do_load(w, op, p):
     # a load must leave every other live model, and every state_dict the caller still holds, as they were
     others_before = {i: R.state_digest(x.model) for i, x in w.deps.items() if x.model is not None and not x.broken and i != op.get("into")}
     held_before = {fid: sd_snapshot(o["sd_obj"]) for fid, o in w.files.items() if o.get("sd_obj") is not None}
+    # load_state_dict(assign=True) makes the target share the tensors of the dict by torch's own definition; with
+    # a dict handed over in memory those are the source model's tensors, so later writes are shared by design
+    assign = bool(op.get("assign")) and rec["ser"] != "direct"
     into = w.deps.get(op.get("into")) if op.get("into") is not None else None
     if into is not None and (into.broken or into.model is None or not into.quantized or json.dumps(into.arch, sort_keys=True) != json.dumps(rec["arch"], sort_keys=True) or into.dtype != rec["dtype"]):
         into = None
@@ -1304,7 +1307,7 @@ def do_load(w, op, p):
         model = build_model(rec["arch"], rec["dtype"], op.get("init", 1), rec["wcls"])
     try:
         if into is not None:
-            model.load_state_dict(sd, assign=bool(op.get("assign")))
+            model.load_state_dict(sd, assign=assign)
         elif target == "requantize":
             requantize(model, sd)
         else:
@@ -1315,7 +1318,7 @@ def do_load(w, op, p):
                 if q.get("filter") is not None:
                     kwargs["modules"] = [model.get_submodule(x) for x in q["filter"]]
                 quantize(model, **kwargs)
-            model.load_state_dict(sd, assign=bool(op.get("assign")))
+            model.load_state_dict(sd, assign=assign)
     except (InjectedFault, InjectedInterrupt):
         raise
     except Exception as e:
@@ -1398,9 +1401,12 @@ def side_effects(w, n, op, others_before, held_before, base_sig, p):
             w.violate("C10", "load_side_effect", "load", dict(base_sig, who="other_model"), f"loading into dep {n.id} changed the state of dep {i}", p)
             x.broken = True
     for fid, other in w.files.items():
+        if other.get("src") == n.id:
+            continue  # a dict taken from the target itself shares the target's own tensors, by torch's definition
         if other.get("sd_obj") is not None and fid in held_before and sd_diff(held_before[fid], sd_snapshot(other["sd_obj"]))[0]:
             w.violate("C10", "load_side_effect", "load", dict(base_sig, who="held_state_dict"), f"loading file {op['fid']} changed the tensors of state_dict {fid} still held by the caller", p)
             other["sd_obj"] = None
+            other["unusable"] = True
 
 
 # ------------------------------------------------------------------------------------------------
